@@ -14,10 +14,10 @@ func init() {
 		ID: "C13",
 		Rule: "plan = seeded datasets of all value types + every command the live command table marks read (and not write) with generated and mutated argument vectors, failing invocations of write commands, and store/move commands followed by a mutation of the destination (and of the source); oracle: the white-box dump of everything the command must not touch is identical before and after; " +
 			"non-trivial = the dataset was non-empty when the command ran; distinct = hash of the (command, argument-class) sequence",
-		Gen:  genC13,
-		Run:  runC13,
-		Real: []string{"all read handlers (set/sorted-set algebra, range, membership, hash, list, string readers)", "set.Union/Intersection/Subtract, sorted_set.Union/Intersect/Subtract", "keyspace getValues (touches caches only)", "command table categories"},
-		Stub: []string{"TCP sockets"},
+		Gen:         genC13,
+		Run:         runC13,
+		Real:        []string{"all read handlers (set/sorted-set algebra, range, membership, hash, list, string readers)", "set.Union/Intersection/Subtract, sorted_set.Union/Intersect/Subtract", "keyspace getValues (touches caches only)", "command table categories"},
+		Stub:        []string{"TCP sockets"},
 		Assumptions: []string{"lazy removal of already-expired keys is allowed (no clock advance happens in this profile, so nothing expires)"},
 	})
 }
